@@ -8,7 +8,7 @@ VAULT_TB = ("Model/Vault.lean is hand-written from x/vault/keeper/msg_server.go 
             "counter, module/user balance and supply after every message")
 EFFECTS_TB = ("extract/effects (go/ast, no type checking): the ordered bank calls / record writes of every vault handler with their path conditions, "
               "texts normalised (locals replaced by their defining expressions, module-name constants resolved, callees inlined); tied to Model/Vault.lean "
-              "by Props/C01Effects.lean through a reviewed role table (5 texts) and condition table (7 texts); amount expressions are not compared "
+              "by Props/C01Effects.lean through reviewed role tables (5 + 4 texts) and condition tables (7 + 6 texts), incl. the liquidationsV2 / esm hand-overs out of vault custody; amount expressions are not compared "
               "(the correspondence runs do that); the order / names of record writes are pinned against a literal list only")
 VAULT_ASSUME = ["a rejected message leaves no writes (baseapp message atomicity; the harness delivers on a cache context written back only on success)",
                 "what a handler reads from other modules (ESM / breaker flags, oracle prices, accrued interest) is an input of the step, printed by the harness from the real chain state; the theorems hold for every value of these inputs",
@@ -33,7 +33,7 @@ PROP = dict(
                        "Comdex.C01.interestCalc_effects", "Comdex.C01.close_runs_ops", "Comdex.C01.repay_runs_ops", "Comdex.C01.create_runs_ops",
                        "Comdex.C01.deposit_runs_ops", "Comdex.C01.withdraw_runs_ops", "Comdex.C01.draw_runs_ops",
                        "Comdex.C01.vault_all_classified", "Comdex.C01.vault_writes_after_bank", "Comdex.C01.vault_own_writes",
-                       "Comdex.C01.vault_table_shape"],
+                       "Comdex.C01.vault_table_shape", "Comdex.C01.custody_go_all", "Comdex.C01.seize_effects", "Comdex.C01.esm_effects"],
     harness_tests=["TestC01"],
     monitors=["custody_eq", "count_eq", "totals_eq"],
     trusted_base=[KERNEL_TB, HARNESS_TB, DEC_TB, VAULT_TB, EFFECTS_TB],
